@@ -107,6 +107,9 @@ func readScenario(connKind, mode, chunks, end, reads string, go123 bool) *vsched
 				}
 			}
 			if end == "peerclose" {
+				// logged before the action: a LogEvent is a scheduling point, so an entry written
+				// after the close could be delayed past the reader's EOF
+				vsched.LogEvent("peer:closing")
 				vsyscall.HClose(b)
 				vsched.LogEvent("peer:closed")
 			}
@@ -197,7 +200,7 @@ func readScenario(connKind, mode, chunks, end, reads string, go123 bool) *vsched
 					fired = true
 				}
 			}
-			peerClosedBefore := l.first("peer:closed") >= 0 && l.first("peer:closed") < endI
+			peerClosedBefore := l.first("peer:closing") >= 0 && l.first("peer:closing") < endI
 			localBefore := l.first("close-call") >= 0 && l.first("close-call") < endI
 			switch {
 			case r.err == nil:
